@@ -1024,7 +1024,33 @@ class B(object):
         self.features.add('continue')
         return [ind + 'continue']
 
+    def s_whileexit(self, ctx, ind, depth):
+        """a while loop whose body ENDS in raise / return, a name bound only in that body, read where control really gets:
+        in an enclosing handler or finally clause, and after the loop through an earlier `continue`"""
+        self.dec(3)
+        self.features.add('while-body-ends-in-raise-or-return')
+        self.we_count = getattr(self, 'we_count', 0) + 1
+        nv = 'wv%d' % self.we_count
+        c = self._read(ctx, ())
+        in_func = ctx.get('in_func', False)
+        last = self.pick(["raise ValueError('gen')", 'return %s' % nv] if in_func else ["raise ValueError('gen')"])
+        variant = self.draw(st.integers(0, 2))
+        lines = [ind + 'try:']
+        lines += [ind + '    while %s:' % c, ind + '        %s = use(%s)' % (nv, c)]
+        if variant != 1:
+            lines += [ind + '        if %s:' % c, ind + '            continue']
+        lines += [ind + '        ' + last]
+        if variant == 2:
+            lines += [ind + 'finally:', ind + '    use(%s)' % nv]
+        else:
+            lines += [ind + 'except ValueError:', ind + '    use(%s)' % nv]
+        if variant != 1:
+            lines += [ind + 'use(%s)' % nv]
+        return lines
+
     def s_raise(self, ctx, ind, depth):
+        if self.profile == 'c01' and not ctx.get('in_class_direct') and not ctx.get('in_loop') and self.chance(40) and self.room():
+            return self.s_whileexit(ctx, ind, depth)
         self.features.add('raise')
         return [ind + "raise ValueError('gen')"]
 
